@@ -62,14 +62,21 @@ fn has_sig(prop: &str, sc: &Scenario, sig: &str) -> Option<(Violation, u64)> {
 /// Delta-debug the operation list, then simplify the device, while the same violation
 /// signature persists. Budget-bounded.
 pub fn fs_minimise(prop: &str, sc: &Scenario, sig: &str, budget: usize) -> Scenario {
+    let test = |c: &Scenario| has_sig(prop, c, sig).map(|(v, _)| v.op_idx);
+    minimise_with(sc, budget, &test)
+}
+
+/// Generic scenario minimiser: `test` returns Some(op index of the violation) while the same
+/// violation signature persists.
+pub fn minimise_with(sc: &Scenario, budget: usize, test: &dyn Fn(&Scenario) -> Option<usize>) -> Scenario {
     let mut best = sc.clone();
     let mut tries = 0usize;
     // cut the tail after the violating op first
-    if let Some((v, _)) = has_sig(prop, &best, sig) {
-        if v.op_idx + 1 < best.ops.len() {
+    if let Some(op_idx) = test(&best) {
+        if op_idx + 1 < best.ops.len() {
             let mut c = best.clone();
-            c.ops.truncate(v.op_idx + 1);
-            if has_sig(prop, &c, sig).is_some() {
+            c.ops.truncate(op_idx + 1);
+            if test(&c).is_some() {
                 best = c;
             }
         }
@@ -84,7 +91,7 @@ pub fn fs_minimise(prop: &str, sc: &Scenario, sig: &str, budget: usize) -> Scena
             let end = (i + chunk).min(c.ops.len());
             c.ops.drain(i..end);
             tries += 1;
-            if has_sig(prop, &c, sig).is_some() {
+            if test(&c).is_some() {
                 best = c;
                 removed_any = true;
             } else {
@@ -103,7 +110,7 @@ pub fn fs_minimise(prop: &str, sc: &Scenario, sig: &str, budget: usize) -> Scena
         let mut c = best.clone();
         c.dev.vols.pop();
         tries += 1;
-        if has_sig(prop, &c, sig).is_some() {
+        if test(&c).is_some() {
             best = c;
         } else {
             break;
@@ -136,7 +143,7 @@ pub fn fs_minimise(prop: &str, sc: &Scenario, sig: &str, budget: usize) -> Scena
             continue;
         }
         tries += 1;
-        if has_sig(prop, &c, sig).is_some() {
+        if test(&c).is_some() {
             best = c;
         }
     }
@@ -155,7 +162,7 @@ pub fn fs_minimise(prop: &str, sc: &Scenario, sig: &str, budget: usize) -> Scena
                     *l = cand;
                 }
                 tries += 1;
-                if has_sig(prop, &c, sig).is_some() {
+                if test(&c).is_some() {
                     best = c;
                     break;
                 }
